@@ -29,6 +29,15 @@ def cases(tier, seed, shard, nshards):
                                  workload=rng.choice(["script", "script", "script", "generator"]))
         c["params"]["cpus_per_pool"] = rng.choice([1, 2, 3, 4, 10])
         yield c
+    # scale cases: large in one dimension (one per shard for the first shards; all of them, twice, in the thorough tier)
+    _kinds = ["fail-sibs", "many-small:overbook", "fail-sibs", "crowd:overbook"]
+    for _j, _kd in enumerate(_kinds * (1 if tier == "quick" else 2)):
+        if tier == "thorough" or _j == shard:
+            _k, _, _a = _kd.partition(":")
+            yield _sim.scale_case(rng, _k, algo=_a or None)
+    if tier == "thorough":
+        for _k in range(2):
+            yield _sim.long_sim_case(rng, algos=("overbook",))
 
 
 def run_case(case, mon):
